@@ -5,6 +5,7 @@ Model: `coreResponse` (first block, caching) and `coreRequest`/`handleBlock2`
 -/
 import CoapLite.Lemmas.BlockTransfer
 import CoapLite.Lemmas.Download
+import CoapLite.Lemmas.DownloadFull
 import CoapLite.Lemmas.BlockFitsRange
 import CoapLite.Lemmas.BlockSession
 import CoapLite.Lemmas.Shape.Block
@@ -181,6 +182,33 @@ theorem follow_up_small_iff (size M : Nat) :
   rw [negotiate_none size 0 M (Nat.zero_le _)]
   unfold blockBudget
   omega
+
+/-- FROM THE APPLICATION'S REPLY TO THE REASSEMBLED BODY, in one statement: `resp` is what the application
+produced for `req` (no Block2 option of its own), `rb2` the block negotiated for it – block 0 – and the
+body is longer than one block. `intercept_response` (core) answers with block 0 = the first `size`
+bytes and keeps `resp`; the follow-up requests for blocks 1, 2, … at that size are all answered from the
+cache (the application is consulted once), block 0 followed by their payloads is byte for byte the
+body, and the final block releases the cache entry. -/
+theorem download_from_reply (M : Nat) (req : Request) (st : BlockState) (resp : Packet) (size : Nat)
+    (rb2 : BlockValue)
+    (hr : req.response = some resp) (hno : resp.getOption block2Num = none)
+    (hs : resp.options.Sorted) (hk : ∀ kv ∈ resp.options, kv.1 ≤ 65535)
+    (hsz : computeMessageSize resp = .ok size)
+    (hn : negotiate st.lastBlock2 (size + tokenReserve resp) resp.payload.length M = .ok (some rb2))
+    (hbv : BvOk rb2) (h0 : rb2.num = 0)
+    (hmore : rb2.size < resp.payload.length)
+    (reqs : List Request)
+    (hfu : ∀ i (h : i < reqs.length), IsFollowUp M reqs[i] (1 + i) rb2.szx)
+    (hne : reqs ≠ [])
+    (hlast : (1 + reqs.length - 1) * 2 ^ (rb2.szx + 4) < resp.payload.length)
+    (hcover : resp.payload.length ≤ (1 + reqs.length) * 2 ^ (rb2.szx + 4)) :
+    (coreResponse M req st).2.2 = .ok true ∧
+    (coreResponse M req st).1.response.map (·.payload) = some (resp.payload.take rb2.size) ∧
+    (resp.payload.take rb2.size ++
+        ((fetchAll M reqs (coreResponse M req st).2.1).1.flatMap (·.1))) = resp.payload ∧
+    (∀ o ∈ (fetchAll M reqs (coreResponse M req st).2.1).1, o.2 = .ok true) ∧
+    (fetchAll M reqs (coreResponse M req st).2.1).2.cachedResponse = none :=
+  Block.download_from_reply M req st resp size rb2 hr hno hs hk hsz hn hbv h0 hmore reqs hfu hne hlast hcover
 
 /-- … so the next request reaches the application again -/
 theorem after_release_passes (req : Request) (st : BlockState)
